@@ -38,7 +38,7 @@ def cfg_trace(ctx):
     return "SPECIFICATION TraceSpec\nCONSTANTS\n%s\nINVARIANT PrintEnd\nCHECK_DEADLOCK FALSE\n" % consts(ctx, '{"t1", "t2", "t3"}')
 
 
-def scenario(sid, present, crit, event, outcome, verdict, early=False, lose=None, lost_before=None, dead=()):
+def scenario(sid, present, crit, event, outcome, verdict, early=False, lose=None, lost_before=None, dead=(), iterated=False):
     """early: ok answers are on their way before the MESSAGE call returns; lose = (kind, task): that task's executor/agent is
     reported lost (Mesos FAILURE event) once the command under test has reached it; dead = non-critical tasks that have
     failed (TASK_FAILED, status INACTIVE) before the request under test arrives: they are no targets any more."""
@@ -49,7 +49,8 @@ def scenario(sid, present, crit, event, outcome, verdict, early=False, lose=None
     for t in sorted(present):
         cls = "c02s%d%s" % (sid, t)
         files["tasks/%s.yaml" % cls] = cs.task_class(cls)
-        roles += cs.role_task(t, cls, critical=crit[t])
+        if not iterated:
+            roles += cs.role_task(t, cls, critical=crit[t])
         tasks.append({"id": t, "class": cls, "crit": crit[t], "outcome": outcome[t], "dead": t in dead})
         if outcome[t] == "ok" and early and event != "DEPLOY":
             scripts.append({"class": cls, "event": event, "outcome": "ok_early"})
@@ -60,6 +61,12 @@ def scenario(sid, present, crit, event, outcome, verdict, early=False, lose=None
                 scripts.append({"class": cls, "launch": LAUNCH[outcome[t]]})
             else:
                 scripts.append({"class": cls, "event": event, "outcome": outcome[t]})
+    if iterated:
+        # the task roles come from ONE `for:` iterator (same criticality for all, written out explicitly): t1, t2, ...
+        nums = sorted(t[1:] for t in present)
+        c = crit[sorted(present)[0]]
+        roles += ('  - name: "t{{ it }}"\n    for:\n      range: \'[%s]\'\n      var: it\n    task:\n      load: c02s%dt{{ it }}\n      critical: %s\n'
+                  % (", ".join('"%s"' % n for n in nums), sid, "true" if c else "false"))
     # a call role that never fires keeps the workflow valid when there is no task at all
     roles += cs.role_call("idle", "idle", "enter_ERROR", critical=False)
     wf = "c02wf%d" % sid
@@ -162,6 +169,11 @@ def run(ctx):
     for ev in ("START", "STOP", "RESET"):
         sid += 1
         scenarios.append(scenario(sid, ["t1", "t2"], {"t1": True, "t2": True}, ev, {"t1": "ok", "t2": "ok"}, "fail", dead=("t1",)))
+    # task roles generated by an iterator keep what the template says about criticality
+    for c in (True, False):
+        for ev in ("CONFIGURE", "START", "STOP", "RESET"):
+            sid += 1
+            scenarios.append(scenario(sid, ["t1", "t2"], {"t1": c, "t2": c}, ev, {"t1": "err_src", "t2": "ok"}, "fail" if c else "ok", iterated=True))
     # timing variant: the acknowledgements overtake the return of the send call
     for ev in ("CONFIGURE", "START", "STOP", "RESET"):
         for out in ({"t1": "ok", "t2": "ok"}, {"t1": "err_src", "t2": "ok"}):
